@@ -22,6 +22,32 @@
 #include <unordered_map>
 #include <list>
 
+#ifdef EVENTPP_VERIF
+// Verification hooks (off by default). With the guard on, the macros forward to static functions of the
+// Threading policy in scope if, and only if, that policy declares them; otherwise they do nothing.
+namespace eventpp { namespace verif_ {
+template <typename Threading>
+inline auto point(const char * tag, int) -> decltype(Threading::verifPoint(tag), void()) { Threading::verifPoint(tag); }
+template <typename Threading>
+inline void point(const char *, long) {}
+template <typename Threading>
+inline auto access(const void * obj, bool write, const char * what, int)
+	-> decltype(Threading::verifAccess(obj, write, what), void()) { Threading::verifAccess(obj, write, what); }
+template <typename Threading>
+inline void access(const void *, bool, const char *, long) {}
+typedef void (*SpinHook)(const void *, int);
+inline SpinHook & spinHook() { static SpinHook hook = nullptr; return hook; }
+inline void spin(const void * lock, int phase) { if(spinHook() != nullptr) spinHook()(lock, phase); }
+} }
+#define EVENTPP_VERIF_POINT(tag) ::eventpp::verif_::point<Threading>(tag, 0)
+#define EVENTPP_VERIF_ACCESS(obj, write, what) ::eventpp::verif_::access<Threading>(obj, write, what, 0)
+#define EVENTPP_VERIF_SPIN(lock, phase) ::eventpp::verif_::spin(lock, phase)
+#else
+#define EVENTPP_VERIF_POINT(tag)
+#define EVENTPP_VERIF_ACCESS(obj, write, what)
+#define EVENTPP_VERIF_SPIN(lock, phase)
+#endif
+
 namespace eventpp {
 
 struct TagHomo {};
@@ -38,12 +64,17 @@ struct SpinLock
 {
 public:
 	void lock() {
+		EVENTPP_VERIF_SPIN(this, 0);
 		while(locked.test_and_set(std::memory_order_acquire)) {
+			EVENTPP_VERIF_SPIN(this, 1);
 		}
+		EVENTPP_VERIF_SPIN(this, 2);
 	}
 
 	void unlock() {
+		EVENTPP_VERIF_SPIN(this, 3);
 		locked.clear(std::memory_order_release);
+		EVENTPP_VERIF_SPIN(this, 4);
 	}
 	
 private:
